@@ -876,6 +876,9 @@ class Messenger(Connection):
         :raise TerminateError: If there is some failure to negotiate.
         '''
         self._logger.debug('Session negotiation')
+        # in force whatever becomes of the negotiation: a refused peer which
+        # never answers the SESS_TERM must not keep the connection for ever
+        self._idle_time = self._config.idle_time
 
         peer_addr_str = self.get_app_socket().getpeername()[0]
         if self._as_passive:
